@@ -1,4 +1,6 @@
 import MJ.Proofs.Fold
+import MJ.Proofs.FoldTables
+import MJ.Proofs.FoldPrimsLawful
 /-!
 # C04 — compile-time evaluation is transparent: literals behave like variables
 
@@ -15,6 +17,9 @@ Property theorems only (helper lemmas live in `MJ/Proofs/Fold.lean`, the model i
   `is_true(Bool(b)) = b`, `contains` returns a boolean.
 * `Expr.WF`: what lexer and parser guarantee — no constant is `undefined`, a `Compare` node has
   at least one operator.
+* The operator tables of the model (`evalBinop`, `evalCompare`, `binInstr`, `finalCompare`,
+  `compareAndPreserve`, the jump chosen for `and`/`or`) are proved equal to the tables regenerated from
+  the source on every run: `MJ.Fold.Tables.*_from_source` in `MJ/Proofs/FoldTables.lean`.
 * `Hoist P ρ e e'`: `e'` is `e` with any subset of its literal sub-expressions (anything the folder
   evaluates) replaced by variables that `ρ` binds to the same values.
 -/
@@ -224,6 +229,14 @@ theorem C04_holds : C04_full := by
     exact (load_never_fails_on_const_error P hP m ρ e hw err h).1
   · intro err h
     exact (load_never_fails_on_const_error P hP m ρ e hw err h).2
+
+/-- the hypotheses are satisfiable by the realistic instance: the transcription of `value/ops.rs`
+    that the driver runs against the real engine is `Lawful`, so every theorem above applies to it -/
+theorem concrete_prims_lawful : Conc.prims.Lawful := Conc.prims_lawful
+
+example : C04_full → ∀ (m : Mode) (ρ : Env) (e e' : Expr), e.WF → Hoist Conc.prims ρ e e' →
+    exec Conc.prims m ρ (compileTop Conc.prims e') = exec Conc.prims m ρ (compileTop Conc.prims e) :=
+  fun h m ρ e e' hw hh => (h Conc.prims concrete_prims_lawful m ρ e hw).1 e' hh
 
 /-! ## the defect that was fixed (`fix:` commit 25af7fa)
 
